@@ -681,3 +681,10 @@ Theorem C02_add_bond_order_changes_is_pass1 : forall K (g : xits), wf g ->
   forall u v, find_edge u v (snd (add_bond_order_changes K g)) <> None <-> find_edge u v (snd (rc_pass1 K false g)) <> None.
 Proof. exact add_bond_order_changes_is_pass1. Qed.
 Print Assumptions C02_add_bond_order_changes_is_pass1.
+
+(** 38. The models agree where they overlap: on a graph all of whose labels are scalars the pair-label model [get_rc_S] IS the
+        option model [get_rc_x] (which is [get_rc] with default options on full-label graphs: theorem 12). *)
+Theorem C02_rcS_scalar : forall K d m (g : xits), wf g ->
+  get_rc_S K d m (gmapn sn_of_x g) = gmapn sn_of_x (get_rc_x K d m g).
+Proof. exact rcS_scalar. Qed.
+Print Assumptions C02_rcS_scalar.
